@@ -23,7 +23,7 @@ use sciparse::{
             PathPolicy, Policy,
             acl::{AclEntry, AclEntryOperator, AclPolicy},
             hop_pattern::{
-                HopPatternPolicy, ParseError,
+                HopPatternPolicy, MAX_EXPRESSION_DEPTH, ParseError,
                 lexer::{HopPatternLexer, Token, TokenKind},
                 parser::HopPatternParser,
             },
@@ -380,6 +380,9 @@ fn ref_pred(s: &str) -> Option<Pred> {
 struct RefParser {
     toks: Vec<RTok>,
     pos: usize,
+    /// documented nesting: 1 + enclosing parentheses + enclosing right-hand sides of `|`
+    level: usize,
+    max_level: usize,
 }
 impl RefParser {
     fn peek(&self) -> Option<&RTok> {
@@ -393,7 +396,11 @@ impl RefParser {
             }
             RTok::Sym('(') => {
                 self.pos += 1;
-                let e = self.expr()?;
+                self.level += 1;
+                self.max_level = self.max_level.max(self.level);
+                let e = self.expr();
+                self.level -= 1;
+                let e = e?;
                 if self.peek() == Some(&RTok::Sym(')')) {
                     self.pos += 1;
                     Some(e)
@@ -420,8 +427,11 @@ impl RefParser {
         let mut e = self.postfix()?;
         while self.peek() == Some(&RTok::Sym('|')) {
             self.pos += 1;
-            let r = self.postfix()?;
-            e = Ast::Or(Box::new(e), Box::new(r));
+            self.level += 1;
+            self.max_level = self.max_level.max(self.level);
+            let r = self.postfix();
+            self.level -= 1;
+            e = Ast::Or(Box::new(e), Box::new(r?));
         }
         // `&` is reserved and unsupported
         if self.peek() == Some(&RTok::Sym('&')) {
@@ -429,17 +439,25 @@ impl RefParser {
         }
         Some(e)
     }
-    fn policy(toks: Vec<RTok>) -> Option<Vec<Ast>> {
-        let mut p = RefParser { toks, pos: 0 };
+    fn policy(toks: Vec<RTok>) -> Option<(Vec<Ast>, usize)> {
+        let mut p = RefParser { toks, pos: 0, level: 1, max_level: 1 };
         let mut out = vec![];
         while p.pos < p.toks.len() {
             out.push(p.expr()?);
         }
-        Some(out)
+        Some((out, p.max_level))
     }
 }
+/// the documented grammar, without the depth limit
 fn ref_parse(s: &str) -> Option<Vec<Ast>> {
-    RefParser::policy(ref_lex(s))
+    RefParser::policy(ref_lex(s)).map(|r| r.0)
+}
+/// is a pattern of the documented grammar beyond the documented depth limit?  (`MAX_EXPRESSION_DEPTH`:
+/// syntax tree deeper than the limit – a hop predicate has depth 1 –, or parentheses / right-hand sides of `|`
+/// nested more than the limit)
+fn ref_too_deep(s: &str) -> Option<bool> {
+    let (es, max_level) = RefParser::policy(ref_lex(s))?;
+    Some(max_level > MAX_EXPRESSION_DEPTH || es.iter().any(|e| e.depth() + 1 > MAX_EXPRESSION_DEPTH))
 }
 
 // ------------------------------------------------------------------------------------------------
@@ -474,6 +492,8 @@ fn perr_class(msg: &str) -> &'static str {
         "and"
     } else if msg.starts_with("unexpected trailing tokens") {
         "trailing"
+    } else if msg.starts_with("expression is nested deeper than") {
+        "too_deep"
     } else {
         "UNKNOWN"
     }
@@ -662,7 +682,20 @@ impl Ctx {
         let line_cmp = line.split(" REPORT-PANIC").next().unwrap().to_string();
         self.compare(stream, &format!("parse {}", hexs(s)), &line_cmp);
         // spec: reference parser
-        let reference = ref_parse(s);
+        let mut reference = ref_parse(s);
+        let too_deep = ref_too_deep(s).unwrap_or(false);
+        let impl_too_deep = line_cmp.starts_with("err too_deep");
+        if reference.is_some() && too_deep != impl_too_deep {
+            self.rep.spec_fail(
+                "C16:parse:depth-limit",
+                "the parser must reject a pattern of the documented grammar with the depth error exactly when it is nested deeper than MAX_EXPRESSION_DEPTH",
+                json!({"pattern": &s[..s.len().min(400)], "pattern_len": s.len(), "impl": &line_cmp[..line_cmp.len().min(200)], "beyond_documented_limit": too_deep, "line": format!("parse {}", hexs(s))}),
+            );
+        }
+        if too_deep {
+            self.rep.hit("parse: pattern beyond MAX_EXPRESSION_DEPTH");
+            reference = None; // outside the accepted language
+        }
         match (&reference, &pol) {
             (Some(es), Some(_)) => {
                 if line_cmp != format!("ok {}", policy_debug(es)) {
@@ -677,7 +710,7 @@ impl Ctx {
             if exp != es.as_slice() {
                 self.rep.spec_fail("C16:parens-ws", "a rendering with redundant parentheses / whitespace parses to a different AST", json!({"pattern": s, "expected": policy_debug(exp), "got": policy_debug(es)}));
             }
-        } else if expect.is_some() && reference.is_none() {
+        } else if expect.is_some() && reference.is_none() && !too_deep {
             self.rep.notes.push(format!("harness self-check: rendering {s:?} rejected by the reference parser"));
         }
         let Some(pol) = pol else { return };
@@ -1269,15 +1302,62 @@ fn sample_of<T: Clone>(rng: &mut Rng, xs: &[T], n: usize) -> Vec<T> {
     (0..n).map(|_| rng.pick(xs).clone()).collect()
 }
 
+/// Pattern strings of size `n` for every way a pattern text can make the parser recurse or the AST deep.
+const PROBE_SHAPES: [&str; 6] = ["parens", "parens-plus", "or-left", "or-right", "juxt", "qmark-chain"];
+fn probe_pattern(shape: &str, n: usize) -> String {
+    match shape {
+        // parser recursion n, AST depth 1
+        "parens" => format!("{}1{}", "(".repeat(n), ")".repeat(n)),
+        // parser recursion n, AST depth n+1
+        "parens-plus" => format!("{}1{}", "(".repeat(n), ")+".repeat(n)),
+        // parser recursion 2 (iterative infix loop), AST left-nested to depth n+1
+        "or-left" => format!("1{}", "|1".repeat(n)),
+        // parser recursion 2n, AST right-nested to depth n+1
+        "or-right" => format!("{}1{}", "1|(".repeat(n), ")".repeat(n)),
+        // no recursion: n top-level expressions
+        "juxt" => "1 ".repeat(n),
+        // parser recursion 1 (iterative postfix loop), AST depth n+1
+        "qmark-chain" => format!("1{}", "?".repeat(n)),
+        // (chains of `*` / `+` have the same shape but exponential / quadratic matching cost, see the timing probe)
+        "star-chain" => format!("1{}", "*".repeat(n)),
+        _ => String::new(),
+    }
+}
+
 fn main() {
     let args = Args::parse();
-    if let Some(n) = args.extra.get("probe-depth").and_then(|s| s.parse::<usize>().ok()) {
-        // child mode: native stack use of the recursive-descent parser / matcher / drop on n nested parentheses
-        let s = format!("{}1{}", "(".repeat(n), ")+".repeat(n));
-        let p = HopPatternPolicy::parse(&s);
-        let ok = p.as_ref().map(|p| p.matches(&[Hop { isd: 1, asn: 1, ing: 0, eg: 0 }.to_impl()])).unwrap_or(false);
-        drop(p);
-        std::process::exit(if ok { 0 } else { 3 });
+    if let Some(spec) = args.extra.get("probe") {
+        // child mode (a stack overflow aborts the process and cannot be caught): `--probe shape:n[:stack_bytes]`
+        // parses, matches (against the empty path and a one-hop path), clones and drops the pattern of that
+        // shape and size on a thread with the given stack (default 2 MiB = std's / tokio's default for spawned
+        // threads); prints one line per completed stage.
+        let w: Vec<&str> = spec.split(':').collect();
+        let n: usize = w.get(1).and_then(|s| s.parse().ok()).unwrap_or(0);
+        let stack: usize = w.get(2).and_then(|s| s.parse().ok()).unwrap_or(2 << 20);
+        let s = probe_pattern(w[0], n);
+        let r = std::thread::Builder::new()
+            .stack_size(stack)
+            .spawn(move || {
+                use std::io::Write;
+                let say = |m: &str| {
+                    println!("{m}");
+                    let _ = std::io::stdout().flush();
+                };
+                let p = HopPatternPolicy::parse(&s);
+                say(if p.is_ok() { "parsed ok" } else { "parsed err" });
+                if let Ok(p) = p {
+                    let a = p.matches(&[]);
+                    let b = p.matches(&[Hop { isd: 1, asn: 1, ing: 0, eg: 0 }.to_impl()]);
+                    say(&format!("matched {a} {b}"));
+                    let q = p.clone();
+                    say(&format!("cloned {}", q == p));
+                    drop(q);
+                    drop(p);
+                    say("dropped");
+                }
+            })
+            .map(|h| h.join());
+        std::process::exit(if matches!(r, Ok(Ok(()))) { 0 } else { 3 });
     }
     quiet_panics();
     let mut rng = Rng::new(args.seed);
@@ -1553,6 +1633,8 @@ fn main() {
         let p2 = vec![p6[1], p6[5]]; // "1" and "2-0#0,2"
         let h3 = vec![h5[0], h5[2], h5[4]];
         let seqs3_5 = all_seqs(&h3, 5);
+        // the property's quantifier: hop sequences up to length 6 (thorough tier)
+        let seqs3_6 = if thorough { all_seqs(&h3, 6) } else { vec![] };
         let seqs3_4 = all_seqs(&h3, 4);
         let seqs5_3 = all_seqs(&h5, 3);
         let seqs5_4 = all_seqs(&h5, 4);
@@ -1560,11 +1642,11 @@ fn main() {
         let d2 = all_asts(&p2, 2);
         for e in &d2 {
             let s = render_policy(std::slice::from_ref(e), &mut None);
-            for chunk in seqs3_5.chunks(400) {
+            for chunk in (if thorough { &seqs3_6 } else { &seqs3_5 }).chunks(400) {
                 cx.pattern(&s, Some(std::slice::from_ref(e)), chunk, "pattern-exhaustive-d2");
             }
         }
-        cx.rep.hit_n("pattern: expressions of depth <= 2 over 2 predicates (all) x all hop sequences <= 5 over 3 hops", d2.len() as u64);
+        cx.rep.hit_n(&format!("pattern: expressions of depth <= 2 over 2 predicates (all) x all hop sequences <= {} over 3 hops", if thorough { 6 } else { 5 }), d2.len() as u64);
         // E2: depth 3 over 2 predicates
         let d3 = all_asts(&p2, 3);
         let d3s = if thorough { d3.clone() } else { sample_of(&mut rng, &d3, 500) };
@@ -1672,25 +1754,108 @@ fn main() {
         }
     }
 
-    // ---- 8. native stack depth of parser / matcher / drop (runtime resource, outside the model) ------
-    if let Ok(exe) = std::env::current_exe() {
-        let mut last_ok = 0usize;
-        let mut first_bad: Option<(usize, String)> = None;
-        for n in [100usize, 1000, 5000, 20000, 100000] {
-            match std::process::Command::new(&exe).args(["--probe-depth", &n.to_string()]).output() {
-                Ok(o) if o.status.code() == Some(0) => last_ok = n,
-                Ok(o) => {
-                    first_bad = Some((n, format!("{:?}", o.status)));
-                    break;
-                }
-                Err(_) => break,
+    // ---- 8. depth limit and native stack ------------------------------------------------------------
+    // 8a. boundary of MAX_EXPRESSION_DEPTH, in process (model + reference oracle): every way a pattern gets deep
+    {
+        let m = MAX_EXPRESSION_DEPTH;
+        let one = [vec![], vec![Hop { isd: 1, asn: 1, ing: 0, eg: 0 }]];
+        for shape in PROBE_SHAPES {
+            for n in [m - 2, m - 1, m, m + 1, m + 2, 2 * m + 1] {
+                let s = probe_pattern(shape, n);
+                // matching a `+` tower on a matching hop is quadratic: parse only above the boundary
+                cx.pattern(&s, None, if n < m { &one } else { &[] }, "depth-boundary");
+                cx.rep.case(&format!("T|{s}"), true);
             }
         }
-        cx.rep.hit_n("nesting depth parsed+matched+dropped in a child process (main thread stack)", last_ok as u64);
-        if let Some((n, st)) = first_bad {
-            cx.rep.notes.push(format!("stack probe: {n} nested parentheses end the child process with {st} (largest passing probe {last_ok}); native stack depth is outside the model"));
-        } else {
-            cx.rep.notes.push(format!("stack probe: up to {last_ok} nested parentheses parse, match and drop without exhausting the main-thread stack"));
+        // mixed: deep arm on either side of `|`, postfix on top of a deep parenthesised group, juxtaposed deep expressions
+        for n in [m - 2, m - 1, m] {
+            let q = probe_pattern("qmark-chain", n - 1); // depth n
+            let pr = probe_pattern("parens", n - 1); // nesting n, depth 1
+            for s in [
+                format!("{q}|1"),
+                format!("1|({q})"),
+                format!("1|{q}"),
+                format!("({q})?"),
+                format!("(({q}))"),
+                format!("{pr}?"),
+                format!("({pr})|1"),
+                format!("1|{pr}"),
+                format!("1|1|{pr}"),
+                format!("{q} {q} {pr}"),
+                format!("({q}|{q})"),
+                format!("({q}|{q})+"),
+            ] {
+                cx.pattern(&s, None, &[], "depth-boundary");
+                cx.rep.case(&format!("T|{s}"), true);
+            }
+        }
+        for _ in 0..args.scale(150, 3000) {
+            // random towers around the limit: k operators / parentheses stacked in random order
+            let k = rng.range((m - 6) as u64, (m + 6) as u64) as usize;
+            let mut s = String::from("1");
+            for _ in 0..k {
+                s = match rng.below(6) {
+                    0 => format!("({s})"),
+                    1 => format!("{s}?"),
+                    2 => format!("({s})+"),
+                    3 => format!("{s}|1"),
+                    4 => format!("1|({s})"),
+                    _ => format!("({s}|2)?"),
+                };
+            }
+            cx.pattern(&s, None, &[], "depth-boundary-random");
+            cx.rep.case(&format!("T|{s}"), true);
+        }
+    }
+    // 8b. native stack: a child process (a stack overflow aborts, it cannot be caught) parses, matches, clones
+    //     and drops huge patterns of every shape on a 2 MiB thread (the default of spawned / tokio worker threads),
+    //     and patterns just inside the limit on a 256 KiB thread
+    if let Ok(exe) = std::env::current_exe() {
+        let mut probes: Vec<(&str, usize, usize)> = vec![];
+        for shape in PROBE_SHAPES {
+            for n in [20_000usize, 200_000] {
+                probes.push((shape, n, 2 << 20));
+            }
+            probes.push((shape, MAX_EXPRESSION_DEPTH - 1, 256 << 10));
+        }
+        for (shape, n, stack) in probes {
+            let spec = format!("{shape}:{n}:{stack}");
+            match std::process::Command::new(&exe).args(["--probe", &spec]).output() {
+                Ok(o) => {
+                    let stages = String::from_utf8_lossy(&o.stdout).replace('\n', "; ");
+                    cx.rep.hit(&format!("stack probe {}", if o.status.code() == Some(0) { "survived" } else { "died" }));
+                    cx.rep.case(&format!("S|{spec}"), true);
+                    if o.status.code() != Some(0) {
+                        let stage = if stages.contains("cloned") { "drop" } else if stages.contains("matched") { "clone" } else if stages.contains("parsed") { "match" } else { "parse" };
+                        let s = probe_pattern(shape, n);
+                        cx.rep.spec_fail(
+                            &format!("C16:{stage}:stack-overflow"),
+                            "parsing / matching / cloning / dropping a hop pattern must terminate without aborting the process, whatever the pattern text",
+                            json!({"shape": shape, "size": n, "thread_stack_bytes": stack, "pattern_prefix": &s[..s.len().min(40)], "pattern_len": s.len(),
+                                   "status": format!("{:?}", o.status), "completed_stages": stages, "stderr": String::from_utf8_lossy(&o.stderr).chars().take(160).collect::<String>(),
+                                   "replay": format!("hx_policy --probe {spec}")}),
+                        );
+                    }
+                }
+                Err(e) => cx.rep.notes.push(format!("stack probe {spec}: cannot spawn child: {e}")),
+            }
+        }
+    }
+    // 8c. cost of nested repetition (reported, not judged: the property asks for termination, not for a time bound)
+    {
+        let hs = impl_hops(&vec![Hop { isd: 1, asn: 1, ing: 0, eg: 0 }; 6]);
+        let mut k = 2usize;
+        loop {
+            let s = format!("1{}", "*".repeat(k));
+            let p = HopPatternPolicy::parse(&s).unwrap();
+            let t = std::time::Instant::now();
+            let _ = p.matches(&hs);
+            let dt = t.elapsed();
+            if dt.as_millis() > 200 || k >= 40 {
+                cx.rep.notes.push(format!("cost probe: `1` followed by {k} `*` on a 6-hop path matched in {dt:?} (each further `*` at least doubles the work; only MAX_EXPRESSION_DEPTH bounds the tower)"));
+                break;
+            }
+            k += 2;
         }
     }
 
